@@ -118,6 +118,15 @@ def build_system(case):
                         max_support=case.get("max_support"))
     if not ham.terms:
         raise _Skip("empty Hamiltonian")
+    # ---- SCALE families (units): the same physical system written in other units, see gen_scaled_cases ----
+    hexp = case.get("hexp")
+    if case.get("loss") is not None:
+        add_weak_loss(ham, rng, ids, dims, case["loss"], case.get("loss_sites", 2))
+    if hexp:
+        rescale_hamiltonian(ham, 2.0 ** hexp)
+    if case.get("sexp"):
+        r = ttns.root_id
+        ttns.replace_tensor(r, ttns.tensors[r] * (2.0 ** case["sexp"]))
     if case.get("ttno_shuffle"):
         ref = util.build_ttns(random.Random(case["seed"] + 17), par, phys=phys, bond=1, shuffle=False)
     else:
@@ -128,10 +137,48 @@ def build_system(case):
     # work at their nominal accuracy (the conservation/reversal tolerances are about the schedule, not about expm)
     import math
     nrm = float(np.linalg.norm(H, 2))
+    # (a Hamiltonian rescaled by 2^hexp gets the time step 2^-hexp times the one of the unscaled system: H dt is unchanged)
+    unit = 2.0 ** hexp if hexp else 1.0
+    nrm = nrm / unit
     dt = 2.0 ** math.floor(math.log2(1.0 / nrm)) if nrm > 0 else DT
-    dt = min(max(dt, 2.0 ** -24), 0.25) * case.get("dtscale", 1)
+    dt = min(max(dt, 2.0 ** -24), 0.25) * case.get("dtscale", 1) / unit
     return {"dt": dt, "ttns": ttns, "ham": ham, "ttno": ttno, "ids": ids, "dims": dims, "H": H, "ref": ref, "phys": phys,
             "builder": bool(case.get("builder"))}
+
+
+def rescale_hamiltonian(ham, factor):
+    """the same Hamiltonian in other units: in every term ONE operator (first site in identifier order) is replaced by
+    `factor` times itself under a new label of the conversion dictionary (what a user does who enters the operators in his
+    units).  factor is a power of two: nothing is rounded, the represented operator is exactly factor * H."""
+    conv = ham.conversion_dictionary
+    terms = []
+    for fr, g, tp in ham.terms:
+        site = sorted(tp)[0]
+        lab = tp[site]
+        new = f"{lab}@x{factor!r}"
+        if new not in conv:
+            conv[new] = factor * np.asarray(conv[lab])
+        d = dict(tp)
+        d[site] = new
+        terms.append((fr, g, util.TensorProduct(d)))
+    ham.terms[:] = terms
+
+
+def add_weak_loss(ham, rng, ids, dims, eps, nsites=2):
+    """adds -i * eps * P_j on up to `nsites` sites j (P_j positive semi-definite with spectral norm 1: a loss channel of
+    relative strength eps); the TTNO becomes (weakly) non-Hermitian"""
+    nprs = np.random.RandomState(rng.randrange(2 ** 31))
+    for j in rng.sample(list(ids), min(nsites, len(ids))):
+        d = dims[j]
+        m = nprs.standard_normal((d, d)) + 1j * nprs.standard_normal((d, d))
+        if rng.random() < 0.5:
+            m = np.diag(np.arange(d) + 1.0)          # a number operator (diagonal loss)
+        pj = m @ m.conj().T
+        pj = pj / np.linalg.norm(pj, 2)
+        lab = f"loss_{j}"
+        ham.conversion_dictionary[lab] = -1j * eps * pj
+        from fractions import Fraction
+        ham.terms.append((Fraction(1), "1", util.TensorProduct({j: lab})))
 
 
 def rtree_json(ttn):
@@ -294,10 +341,19 @@ class Recorder:
                 if heff.shape != K.shape:
                     err = float("inf")
                 else:
-                    err = float(np.max(np.abs(K - heff))) / max(1.0, float(np.max(np.abs(K))))
+                    dev = float(np.max(np.abs(K - heff)))
+                    err = dev / max(1.0, float(np.max(np.abs(K))))
+                    # RELATIVE to the scale of the reference (the property is invariant under a change of units): the
+                    # deviation against the largest element of E^dagger H E; floor 1e-3 * max|H| * mean squared column
+                    # norm of E (an effective Hamiltonian that vanishes by cancellation is not judged relative to itself)
+                    floor = 1e-3 * float(np.max(np.abs(self.H))) * float(np.sum(np.abs(E) ** 2)) / max(1, E.shape[1])
+                    scale = max(float(np.max(np.abs(K))), floor)
+                    if scale > 0:
+                        err = max(err, dev / scale)
                 # sanity of the reference itself: E applied to the current tensor is the current state
-                ref_err = float(np.max(np.abs(E @ psi.reshape(-1) - dense_state(cp, self.order))))
-                if ref_err > 1e-9:
+                full = dense_state(cp, self.order)
+                ref_err = float(np.max(np.abs(E @ psi.reshape(-1) - full)))
+                if ref_err > 1e-9 * max(1.0, float(np.max(np.abs(full)))):      # (states of any norm: relative to the amplitudes)
                     self.problems.append(f"embedding self-check failed ({ref_err:.2e})")
             except Exception as e:  # noqa
                 err = float("inf")
@@ -762,6 +818,66 @@ def gen_history_cases(rng, count, kinds, base):
     return cases
 
 
+HEXP_BANDS = [(-44, -24), (-23, -8), (8, 24), (-7, 7)]      # exponents of two: 6e-14 .. 1.7e7, four bands visited in turn
+SEXPS = [-30, -16, -6, 6, 16]                                # state rescaled by 2^sexp (norm 1e-9 .. 6e4 times the random one)
+
+
+def gen_scaled_cases(rng, count, kinds, base, lossy=False, saturated=None):
+    """UNITS and SCALES.  The property texts quantify over all Hamiltonians, states and step sizes, and every statement
+    in them is invariant under a change of units (H -> s H, dt -> dt / s) and under rescaling the state: the same
+    physical system is entered with the Hamiltonian multiplied by s = 2^hexp, hexp in [-44, 24] (energies of order 1e-13 ..
+    1e7, time steps 1e13 .. 1e-7: H dt is what it is for the unscaled system, and powers of two round nothing), in every
+    fifth case also the state multiplied by 2^sexp.  With `lossy` two thirds of the cases carry, on top of a HERMITIAN
+    Hamiltonian, loss terms -i eps P_j with eps = 10^u, u uniform in [-9.5, -1] (weakly non-Hermitian TTNO: weak decay
+    next to large energies); the last third is Hermitian / generic non-Hermitian as `base` says.  The oracles judge RELATIVE
+    to the scale of their reference.  Small trees (2..6 nodes); every seventh case has physical legs of dimension 1.  saturated(rng, j) may supply the fields of an exactness
+    case (two nodes) for every third case."""
+    pool = [p for p in SPECIAL_TREES if len(p) <= 6]
+    cases = []
+    for j in range(count):
+        par = rng.choice(pool) if j % 3 else random_tree(rng, rng.choice([2, 3, 4, 5, 6]))
+        c = {"par": par, "kind": kinds[j % len(kinds)], "seed": rng.randrange(10 ** 9)}
+        c.update(base(rng, j, par))
+        if saturated is not None and j % 3 == 0:
+            c.update(saturated(rng, j))
+        lo, hi = HEXP_BANDS[(j // len(kinds)) % len(HEXP_BANDS)]
+        c["hexp"] = rng.randint(lo, hi)
+        if lossy and j % 3 != 2:
+            c["herm"] = True
+            c["loss"] = 10.0 ** rng.uniform(-9.5, -1.0)
+            c["loss_sites"] = rng.choice([1, 2, len(c["par"])])
+        elif lossy:
+            c["herm"] = j % 6 == 5           # generic non-Hermitian / Hermitian in turn
+        if j % 5 == 4:
+            c["sexp"] = rng.choice(SEXPS)
+        if j % 7 == 6 and "phys" not in c:
+            # physical legs of dimension ONE next to 2 and 3, bonds 1..2 (dimension-1 legs are members of "all initial states")
+            n = len(c["par"])
+            c["phys"] = [rng.choice([1, 1, 2, 3]) for _ in range(n)]
+            c["bond"] = {i: rng.choice([1, 1, 2]) for i in range(1, n)}
+            c["dim1"] = True
+        c.setdefault("nsteps", 1)
+        c["wcap"] = 1
+        c["scaled"] = True
+        cases.append(c)
+    return cases
+
+
+def scale_distribution(c, x):
+    """distribution counters of the scale families (shared by C05-C07)"""
+    if x.get("hexp") is not None:
+        h = x["hexp"]
+        c["H-scale=2^" + ("[-44,-24]" if h <= -24 else "[-23,-8]" if h <= -8 else "[-7,7]" if h <= 7 else "[8,24]")] += 1
+    if x.get("loss") is not None:
+        c["weak-loss=1e%d" % int(np.floor(np.log10(x["loss"])))] += 1
+    if x.get("sexp"):
+        c["state-scale=2^%d" % x["sexp"]] += 1
+    if x.get("dtscale", 1) != 1:
+        c["H*dt-scale=%g" % x["dtscale"]] += 1
+    if x.get("dim1"):
+        c["physical-dimension-1-legs"] += 1
+
+
 def mode_of(name):
     from pytreenet.time_evolution.time_evolution import TimeEvoMode
     return {"expm": TimeEvoMode.EXPM, "default": TimeEvoMode.FASTEST, "RK45": TimeEvoMode.RK45, "RK23": TimeEvoMode.RK23,
@@ -824,7 +940,12 @@ class C05(Prop):
             "thirds with every bond >= 2): steps / reset_to_initial_state() / steps; evaluate_operators() between steps and the public run() "
             "with single-site observables on leaves (one furthest from the sweep start) and a two-site product - H_eff against E^dagger H E "
             "at every call of every step of the history, the reset's cache rebuild and the absence of schedule events while measuring are "
-            "part of the model tie. non-trivial = at least one link/two-site update (always, >= 2 nodes); distinct by content")
+            "part of the model tie. Units / scales (trees 2..6 nodes): the Hamiltonian multiplied by 2^hexp, hexp in [-44, 24] in four bands "
+            "(energies 1e-13 .. 1e7) with the time step divided by the same power of two (H dt as for the unscaled system, nothing rounded); "
+            "two thirds of these cases are a Hermitian Hamiltonian plus loss terms -i eps P_j on 1, 2 or all sites, eps = 10^u, u uniform in "
+            "[-9.5, -1] (weakly non-Hermitian TTNO, weak decay next to large energies), the rest Hermitian / generic non-Hermitian; every fifth "
+            "state rescaled by 2^-30 .. 2^16, every seventh with physical legs of dimension 1; H_eff is judged RELATIVE to max|E^dagger H E| (floor 1e-3 max|H| mean column norm^2 of E). "
+            "non-trivial = at least one link/two-site update (always, >= 2 nodes); distinct by content")
     clauses = [
         ("F", "for every tree with unique ids and >= 2 nodes the three traces are defined (C05_trace*_defined); one-site schemes: the signed Site "
               "factors of every node sum to 1 (C05_site_durations_first_order / _second_order); the total signed duration of a step is 1 for all "
@@ -867,10 +988,11 @@ class C05(Prop):
               "their current structure; all build operations accepted; hypothesis checkers wf_heffb / wf_linkb (C05_heff_site_checked, "
               "C05_heff_link_checked) and, as a cross-check, result checkers heff_ok / link_ok (C05_heff_ok_sound, C05_link_ok_sound) by vm_compute"),
         ("V", "value tie of the diagram level: einsum of the model diagram (fresh blocks) on the captured tensors equals the matrix handed to "
-              "time_evolve, 1e-9 relative, for the sampled site, link and two-site calls (detects stale cache blocks, wrong leg permutations, "
+              "time_evolve, 1e-9 relative (to max(1, |value|) and to the value's own largest element), for the sampled site, link and two-site calls (detects stale cache blocks, wrong leg permutations, "
               "swapped sides / swapped physical legs of the pair)"),
         ("V", "H_eff handed to time_evolve equals E^dagger H E (dense operator, embedding by differentiating the current dense state): "
-              "numerical oracle, relative tolerance 1e-9, at every call of every step (site, link and two-site), also after "
+              "numerical oracle, tolerance 1e-9 relative to max(1, max|E^dagger H E|) AND relative to max|E^dagger H E| itself (Hamiltonians "
+              "in any units), at every call of every step (site, link and two-site), also after "
               "reset_to_initial_state() and after observables were recorded on the live state; observed signed durations per node / edge "
               "in units of the requested dt/2 in every evolution mode"),
     ]
@@ -911,6 +1033,9 @@ class C05(Prop):
             cases.append(c)
         # HISTORIES: run / reset / run and observables recorded between the steps, H_eff checked at every call of every step
         cases += gen_history_cases(rng, ctx.scale(27, 540) * budget_scale, kinds, lambda rng, j, par: extra(rng, j, par))
+        # UNITS / SCALES: Hamiltonian in units 2^-44 .. 2^24 with H dt unchanged, weak loss on top of a Hermitian Hamiltonian,
+        # rescaled states; H_eff is judged relative to the size of E^dagger H E
+        cases += gen_scaled_cases(rng, ctx.scale(24, 600) * budget_scale, kinds, lambda rng, j, par: extra(rng, j, par), lossy=True)
         return cases
 
     def nontrivial(self, case):
@@ -921,7 +1046,7 @@ class C05(Prop):
         for x in cases:
             c[f"nodes={len(x['par'])}"] += 1
             c[x["kind"]] += 1
-            c["hermitian" if x.get("herm", True) else "non-hermitian"] += 1
+            c["hermitian" if x.get("herm", True) and x.get("loss") is None else "non-hermitian"] += 1
             c["ttno-other-child-order" if x.get("ttno_shuffle") else "ttno-same-tree"] += 1
             if x["par"][1:].count(0) == 1:
                 c["single-child-root"] += 1
@@ -929,6 +1054,7 @@ class C05(Prop):
             c["history=" + x.get("hist", "steps")] += 1
             if x.get("tratio") is not None and x["tratio"] != int(x["tratio"]):
                 c["final-time-not-multiple-of-dt"] += 1
+            scale_distribution(c, x)
         return dict(c)
 
     def impl(self, ctx, cases):
